@@ -52,7 +52,7 @@ pub fn run(cfg: &Cfg) -> i32 {
                 jumps: false,
                 cont_max: false,
                 set_vars: false,
-                stop_at_end: true,
+                stop_at_end: true, bad_calls: false,
                 jump_targets: None,
             };
             let host = HostCfg {
